@@ -236,7 +236,7 @@ static gd_entry_t *_GD_Add(DIRFILE *restrict D,
       return NULL;
     }
 
-    memcpy(name, parent, P->e->len);
+    memcpy(name, P->field, P->e->len); /* not the caller's code: it may start with '.' */
     name[subfield_offs - 1] = '/';
     memcpy(name + subfield_offs, entry->field, len + 1);
     len += subfield_offs;
@@ -1943,7 +1943,7 @@ static int _GD_AddAlias(DIRFILE *restrict D, const char *restrict parent,
     if (name == NULL)
       goto add_alias_error;
 
-    memcpy(name, parent, P->e->len);
+    memcpy(name, P->field, P->e->len); /* not the caller's code: it may start with '.' */
     name[subfield_offs - 1] = '/';
     memcpy(name + subfield_offs, field_code, len + 1);
     len += subfield_offs;
